@@ -107,16 +107,32 @@ func calculateLine(l *Line, cur currency.Code, rates []*currency.ExchangeRate, r
 	// precision they are going to be presented with (see Line.round) before
 	// they are used, so that calculating the result again is a no-op.
 	pe := l.Item.Price.Exp()
+	// An amount too small to show leaves an entry with nothing in it: the
+	// next normalisation would drop it, so it is dropped here.
+	var ds []*LineDiscount
 	for _, d := range l.Discounts {
 		if d != nil && (d.Percent == nil || d.Percent.IsZero()) {
+			nonZero := !d.Amount.IsZero()
 			d.Amount = d.Amount.RescaleDown(pe)
+			if nonZero && d.IsEmpty() {
+				continue
+			}
 		}
+		ds = append(ds, d)
 	}
+	l.Discounts = ds
+	var cs []*LineCharge
 	for _, c := range l.Charges {
 		if c != nil && (c.Percent == nil || c.Percent.IsZero()) && c.Rate == nil {
+			nonZero := !c.Amount.IsZero()
 			c.Amount = c.Amount.RescaleDown(pe)
+			if nonZero && c.IsEmpty() {
+				continue
+			}
 		}
+		cs = append(cs, c)
 	}
+	l.Charges = cs
 
 	// Calculate the line sum and total
 	sum := price.Multiply(l.Quantity)
